@@ -53,13 +53,8 @@ itself being caught by C03 and C18 on the raising-frame scenario; round 2: 60; r
 a concrete failing input, %d as `no-failing-input-found` (the change alters modelled behaviour —
 correspondence or a proof obligation breaks — without the oracle exhibiting a violation of the
 statement on the fixed tree; e.g. C12-m3: `running` clears one step later, which the statement
-allows), and %d are not caught by the check of the property they were written for: C18-m2, which is
-proved equivalent on the fixed tree (`C03_receiver_last_branch_never_raises`: no reachable frame
-raises in the branch it edits), and C07-r3m3 (a USD flag cleared on the wrong branch makes a second
-trigger block for ever inside `parse`, i.e. in socketserver's connection-handler thread): C07's
-ledger covers the threads, timers and servers the *System* starts, not a handler thread blocked
-inside `parse`; that change is caught with a concrete input by C13 (`trigger_release`, theorem
-`C13_never_blocks`) and by C02's correspondence. This is a stated limit of the C07 model.
+allows), and %d is not caught: C18-m2, which is proved equivalent on the fixed tree
+(`C03_receiver_last_branch_never_raises`: no reachable frame raises in the branch it edits).
 
 **What the misses taught, and what was changed** (no check was loosened; every row was missed on
 first contact and is caught now):
@@ -80,6 +75,7 @@ first contact and is caught now):
 | C01-r2m3 `ex.args[0]` on a bare `ValueError` | scripted parser raised only `ValueError('text')`, logging disabled | 41-kind exception alphabet, `str` subclasses, nine `OSError` kinds, records really formatted |
 | C11-m2 / C11-r2m3 broadcast reset rebinding the driver list | harness crashed (`no-failing-input-found`) | harness follows `system.drivers`; motion probe on the positioning thread's own list |
 | C06-r2m3 class-level `Value` flags written through `.value` | custom `system_*` commands drawn with 4 %% probability | every custom operation exercised deterministically per driver |
+| C07-r3m3 a USD flag cleared on the wrong branch makes a second trigger block for ever inside `parse` (handler thread never ends) | C07's ledger covered only what the System starts | part `c07_as`: `C07_as_never_blocks` (from `C13_never_blocks`), oracle with a non-blocking queue stand-in (C13 and C02 caught it meanwhile) |
 | C16-r3m1 a new subscriber is handed the previous publication's buffer | publications were single loop iterations with the subscriber present from the start | `run_loop` scenarios: subscribers joining/leaving mid-period, every frame checked at the moment it is put (C08 caught it as `stale_frame` meanwhile) |
 
 **False alarms found and removed.** Wide seed sweeps of the full checks on the unchanged tree
